@@ -4,6 +4,9 @@ import (
 	"encoding/hex"
 	"encoding/json"
 	"fmt"
+	"os"
+	"regexp"
+	"strconv"
 	"strings"
 	"testing"
 
@@ -96,14 +99,15 @@ type result struct {
 }
 
 type worker struct {
-	r     *vreport.Run
-	t     *testing.T
-	buf   []byte
-	root  *insaneJSON.Root
-	subjs map[string]*subject
-	ctr   int64
-	n     int64
-	stop  bool
+	r       *vreport.Run
+	t       *testing.T
+	buf     []byte
+	root    *insaneJSON.Root
+	subjs   map[string]*subject
+	ctr     int64
+	n       int64
+	spaceNo int
+	stop    bool
 }
 
 func (w *worker) subject(name, params string) *subject {
@@ -178,10 +182,11 @@ type tcase struct {
 	LineHex string `json:"line_hex"`
 	Line    string `json:"line"` // human readable (%q), not used for replay
 	Want    string `json:"want,omitempty"`
+	Tag     string `json:"tag,omitempty"`
 }
 
-func mkcase(kind string, s *subject, line []byte, want string) tcase {
-	return tcase{Kind: kind, Decoder: s.name, Params: s.params, LineHex: hex.EncodeToString(line), Line: fmt.Sprintf("%q", line), Want: want}
+func mkcase(kind string, s *subject, line []byte, want, tag string) tcase {
+	return tcase{Tag: tag, Kind: kind, Decoder: s.name, Params: s.params, LineHex: hex.EncodeToString(line), Line: fmt.Sprintf("%q", line), Want: want}
 }
 
 func errClass(err error) string {
@@ -194,7 +199,7 @@ func errClass(err error) string {
 
 // check evaluates one (decoder, line) pair. want != nil: the decode must succeed and yield exactly want.
 // Returns the result for family-specific follow-up checks (nil when a violation was already reported).
-func (w *worker) check(kind string, s *subject, line []byte, want *V) *result {
+func (w *worker) check(kind string, s *subject, line []byte, want *V, tag string) *result {
 	r := w.r
 	r.Case()
 	r.Steps(1)
@@ -205,6 +210,21 @@ func (w *worker) check(kind string, s *subject, line []byte, want *V) *result {
 	res := w.exec(s, line, false)
 	feat := func(extra ...string) map[string]string {
 		m := map[string]string{"decoder": s.name, "kind": kind}
+		for _, kvp := range strings.Split(tag, ",") {
+			if k, v, ok := strings.Cut(kvp, "="); ok {
+				m[k] = v
+			}
+		}
+		if strings.HasSuffix(s.name, "json") {
+			m["input"] = "invalid-json"
+			if json.Valid(line) {
+				m["input"] = "valid-json"
+			}
+			m["cfg"] = "plain"
+			if strings.Contains(s.params, "json_max_fields_size") {
+				m["cfg"] = "limits"
+			}
+		}
 		for i := 0; i+1 < len(extra); i += 2 {
 			m[extra[i]] = extra[i+1]
 		}
@@ -216,18 +236,18 @@ func (w *worker) check(kind string, s *subject, line []byte, want *V) *result {
 	}
 	if res.panicked {
 		again := w.exec(s, line, true)
-		r.Violation("panic", feat("site", vreport.PanicSite(res.stack)),
+		w.viol("panic", feat("site", vreport.PanicSite(res.stack), "pval", normPanic(res.pval)),
 			fmt.Sprintf("decoder=%s params=%s line=%q\npanic: %s (fresh decoder+root reproduces: %v)\n%s", s.name, s.params, line, res.pval, again.panicked, trimStack(res.stack)),
-			mkcase(kind, s, line, wantS))
+			mkcase(kind, s, line, wantS, tag))
 		return nil
 	}
 	if res.bufDiff != "" {
-		r.Violation("buffer", feat(), fmt.Sprintf("decoder=%s params=%s line=%q: %s", s.name, s.params, line, res.bufDiff), mkcase(kind, s, line, wantS))
+		w.viol("buffer", feat(), fmt.Sprintf("decoder=%s params=%s line=%q: %s", s.name, s.params, line, res.bufDiff), mkcase(kind, s, line, wantS, tag))
 		return nil
 	}
 	if res.err != nil {
 		if want != nil || kind == "jsonfid" || kind == "limit" {
-			r.Violation("rejected", feat(), fmt.Sprintf("decoder=%s params=%s well-formed line=%q rejected: %v (want %s)", s.name, s.params, line, res.err, wantS), mkcase(kind, s, line, wantS))
+			w.viol("rejected", feat(), fmt.Sprintf("decoder=%s params=%s well-formed line=%q rejected: %v (want %s)", s.name, s.params, line, res.err, wantS), mkcase(kind, s, line, wantS, tag))
 			return nil
 		}
 		r.Outcome(s.name, s.params, "err", errClass(res.err))
@@ -235,7 +255,7 @@ func (w *worker) check(kind string, s *subject, line []byte, want *V) *result {
 	}
 	// an event: its encoding must be JSON
 	if !json.Valid([]byte(res.out)) {
-		r.Violation("malformed-event", feat(), fmt.Sprintf("decoder=%s params=%s line=%q accepted, but the event encodes to invalid JSON: %q", s.name, s.params, line, res.out), mkcase(kind, s, line, wantS))
+		w.viol("malformed-event", feat("why", jsonWhy(res.out)), fmt.Sprintf("decoder=%s params=%s line=%q accepted, but the event encodes to invalid JSON: %q", s.name, s.params, line, res.out), mkcase(kind, s, line, wantS, tag))
 		return nil
 	}
 	r.Nontrivial()
@@ -243,12 +263,21 @@ func (w *worker) check(kind string, s *subject, line []byte, want *V) *result {
 	if want != nil {
 		got, err := Parse(res.out)
 		if err != nil || !Equal(got, want, false) {
-			r.Violation("fields", feat(), fmt.Sprintf("decoder=%s params=%s line=%q\n got=%s\nwant=%s", s.name, s.params, line, res.out, wantS), mkcase(kind, s, line, wantS))
+			w.viol("fields", feat("diff", diffClass(got, want)), fmt.Sprintf("decoder=%s params=%s line=%q\n got=%s\nwant=%s", s.name, s.params, line, res.out, wantS), mkcase(kind, s, line, wantS, tag))
 			return nil
 		}
 	}
 	r.Sample(map[string]any{"decoder": s.name, "params": s.params, "line": fmt.Sprintf("%q", line), "event": res.out})
 	return &res
+}
+
+var dumpClause = os.Getenv("VERIF_C12_DUMP")
+
+func (w *worker) viol(clause string, features map[string]string, detail string, c any) {
+	if dumpClause != "" && strings.Contains(clause, dumpClause) {
+		fmt.Printf("DUMP %s %v %s\n", clause, features, strings.SplitN(detail, "\n", 2)[0])
+	}
+	w.r.Violation(clause, features, detail, c)
 }
 
 func trimStack(st string) string {
@@ -270,9 +299,9 @@ func trimStack(st string) string {
 
 // both evaluates the line as given and with a trailing newline.
 func (w *worker) both(kind string, s *subject, line []byte) {
-	w.check(kind, s, line, nil)
+	w.check(kind, s, line, nil, "")
 	if len(line) == 0 || line[len(line)-1] != '\n' {
-		w.check(kind, s, append(append(make([]byte, 0, len(line)+1), line...), '\n'), nil)
+		w.check(kind, s, append(append(make([]byte, 0, len(line)+1), line...), '\n'), nil, "")
 	}
 }
 
@@ -300,7 +329,7 @@ func (w *worker) replay(tc tcase) {
 	case "limit":
 		w.checkLimit(s, line)
 	default:
-		if res := w.check(tc.Kind, s, line, want); res != nil {
+		if res := w.check(tc.Kind, s, line, want, tc.Tag); res != nil {
 			if res.err != nil {
 				fmt.Printf("result: error %v\n", res.err)
 			} else {
@@ -357,4 +386,124 @@ func (w *worker) closePipes() {
 			s.pipe.stop()
 		}
 	}
+}
+
+var jsonNumRe = regexp.MustCompile(`^-?(0|[1-9][0-9]*)(\.[0-9]+)?([eE][+-]?[0-9]+)?$`)
+
+// jsonWhy classifies why a text is not JSON with a lenient scan of its own: the first number-like run that is
+// not a JSON number ("bad-number"), the first invalid escape ("bad-escape") or raw control character inside a
+// string ("raw-control-char"); anything else is "other: <encoding/json message>".
+func jsonWhy(out string) string {
+	inStr := false
+	for i := 0; i < len(out); i++ {
+		c := out[i]
+		if inStr {
+			switch {
+			case c == '"':
+				inStr = false
+			case c < 0x20:
+				return "raw-control-char"
+			case c == '\\':
+				if i+1 >= len(out) {
+					return "bad-escape"
+				}
+				e := out[i+1]
+				if e == 'u' {
+					if i+6 > len(out) {
+						return "bad-escape"
+					}
+					if _, err := strconv.ParseUint(out[i+2:i+6], 16, 32); err != nil {
+						return "bad-escape"
+					}
+					i += 5
+				} else if strings.IndexByte(`"\\/bfnrt`, e) < 0 {
+					return "bad-escape"
+				} else {
+					i++
+				}
+			}
+			continue
+		}
+		if c == '"' {
+			inStr = true
+			continue
+		}
+		if lit := literalAt(out, i); lit > 0 {
+			i += lit - 1
+			continue
+		}
+		if strings.IndexByte("+-.eE0123456789", c) >= 0 {
+			j := i
+			for j < len(out) && strings.IndexByte("+-.eE0123456789", out[j]) >= 0 {
+				j++
+			}
+			if !jsonNumRe.MatchString(out[i:j]) {
+				return "bad-number"
+			}
+			i = j - 1
+		}
+	}
+	var v any
+	err := json.Unmarshal([]byte(out), &v)
+	if err == nil {
+		return "valid"
+	}
+	return "other: " + err.Error()
+}
+
+var digitsRe = regexp.MustCompile(`[0-9]+`)
+
+// normPanic keeps the shape of a panic message ("slice bounds out of range [:-N]").
+func normPanic(v string) string {
+	v = strings.TrimPrefix(v, "runtime error: ")
+	if len(v) > 80 {
+		v = v[:80]
+	}
+	return digitsRe.ReplaceAllString(v, "N")
+}
+
+func literalAt(s string, i int) int {
+	for _, l := range []string{"true", "false", "null"} {
+		if strings.HasPrefix(s[i:], l) {
+			return len(l)
+		}
+	}
+	return 0
+}
+
+// diffClass names the top-level fields that differ and how (used to match known findings narrowly).
+func diffClass(got, want *V) string {
+	if got == nil || got.Kind != Obj || want.Kind != Obj {
+		return "shape"
+	}
+	var parts []string
+	for _, f := range want.Fields {
+		g := got.Get(f.K)
+		switch {
+		case g == nil:
+			parts = append(parts, f.K+":missing")
+		case Equal(g, f.V, false):
+		case g.Kind == Str && f.V.Kind == Str:
+			rel := "other"
+			switch {
+			case strings.TrimLeft(f.V.S, " ") == g.S:
+				rel = "trimmed-left"
+			case strings.TrimSpace(f.V.S) == g.S:
+				rel = "trimmed"
+			case strings.HasPrefix(f.V.S, g.S):
+				rel = "truncated"
+			case strings.HasPrefix(g.S, f.V.S):
+				rel = "longer"
+			}
+			parts = append(parts, f.K+":"+rel)
+		default:
+			parts = append(parts, f.K+":other")
+		}
+	}
+	for _, f := range got.Fields {
+		if want.Get(f.K) == nil {
+			parts = append(parts, f.K+":extra")
+		}
+	}
+	return strings.Join(parts, ",")
 }
